@@ -179,6 +179,63 @@ sacc("Process.uids", ["result.real == intval(rec['ur'])", "result.effective == i
 sacc("Process.gids", ["result.real == intval(rec['gr'])", "result.effective == intval(rec['ge'])",
                       "result.saved == intval(rec['gs'])"], "result.real == intval(rec['ge'])")
 sacc("Process.num_threads", ["result == intval(rec['nthr'])"], "result == intval(rec['vol'])")
+# --- threads(): proof for arbitrary record content, thread lists of length <= 1 (the body carries no state but the
+#     hit_enoent flag between iterations); longer lists: bounded sweep below ------------------------------------------
+TIDS = ["101", "205"]
+
+
+def setup_threads(it, cfg):
+    n = cfg["n"]
+    proc = linux_process(it)
+    tids = TIDS[:n]
+    files = {}
+    recs = []
+    it.ctx.uf("py_strip", ["String"], "String")
+    it.ctx.uf("py_split", ["String", "String"], ("Seq", "String"))
+    for k, tid in enumerate(tids):
+        rec = stat_record(it, prefix=f"t{k}")
+        # the record as threads() reads it: no surrounding whitespace once stripped, single spaces between fields
+        if not hasattr(it.ctx, "known_stripped"):
+            it.ctx.known_stripped = set()
+        it.ctx.known_stripped.add(rec["data"].sx)
+        it.assume(Eq(smt.app("py_split", ("Seq", "String"), rec["rest"], S(b" ")), rec["F"].seq))
+        files[f"/task/{tid}/stat"] = (lambda it2, p, rec=rec: rec["data"])
+        recs.append(rec)
+    main = stat_record(it, prefix="st")
+    files["/task"] = lambda it2, p: list(tids)
+    files["/stat"] = lambda it2, p: main["data"]
+    ProcEnv(it, files=files).install()
+    clk = it.fresh("CLOCK_TICKS", "Int")
+    it.assume(smt.Cmp(">", clk, I(0)))
+    it.env_over["_pslinux.CLOCK_TICKS"] = clk
+    return {"args": {"self": proc}, "spec": {"recs": recs, "CLK": clk, "n": n, "TID": [int(t) for t in tids]},
+            "values": [clk]}
+
+
+def h_oks(it, log):
+    """indices of the threads whose stat file was read successfully, in order"""
+    out = []
+    for e in log:
+        if e[0] == "access" and e[1].startswith("open:") and "/task/" in e[1] and e[3] == "ok":
+            tid = e[1].split("/task/")[1].split("/")[0]
+            out.append(TIDS.index(tid))
+    return out
+
+
+REGISTRY.add(Contract(
+    "C06", LINUX_PY, "Process.threads", name="_pslinux.Process.threads(<=1 thread, any content)", setup=setup_threads,
+    env=ENV, configs=[{"n": 0}, {"n": 1}], helpers=dict(HELPERS, oks=h_oks), decorated=True, raises_any=True,
+    inline=["_is_zombie", "_raise_if_zombie", "_raise_if_not_alive"],
+    ensures=[
+        "len(result) == len(oks(log))",                                  # one entry per thread that could be read
+        "forall(range(len(result)), lambda j: result[j].id == TID[oks(log)[j]])",
+        "forall(range(len(result)), lambda j: result[j].user_time * CLK == intval(tok(recs[oks(log)[j]], 11)))",
+        "forall(range(len(result)), lambda j: result[j].system_time * CLK == intval(tok(recs[oks(log)[j]], 12)))",
+    ],
+    canaries=["len(result) == 7"], replay="c06:threads",
+    note="per thread: (tid, utime/CLK, stime/CLK) of its own record, fields counted after the LAST ')' whatever the "
+         "thread name contains; a thread that vanished is skipped"))
+
 # num_ctx_switches: the un-anchored pattern 'ctxt_switches:\\t(\\d+)' (two matches, anywhere in a line) needs
 # nested quantifiers that neither solver decides; bounded stand-in instead (labelled bounded).
 NCS = Contract(
@@ -192,4 +249,5 @@ THR = Contract(
 BOUNDED_CONTRACTS = [NCS, THR]
 BOUNDED = [bounded_sweep(NCS, "c06:status", quick=200, thorough=3000),
            bounded_sweep(THR, "c06:threads", quick=150, thorough=3000)]
-NOT_COVERED.append("threads() and num_ctx_switches() are checked by bounded sweeps only (labelled bounded)")
+NOT_COVERED.append("num_ctx_switches() is checked by a bounded sweep only; threads() is proved for <= 1 thread of "
+                   "arbitrary content and swept (bounded) for longer lists")
